@@ -274,8 +274,8 @@ DYADIC = [0.0, 0.5, 1.0, -1.0, -0.5, 0.25, 1.5, 2.0, 3.0, -3.0, 2.5, 7.0, -2.0]
 
 
 def gen_fine(rng, S, dyadic):
-    nr, nc = rng.choice([1, 2, 3, rng.randint(1, S), rng.randint(1, S)]), \
-        rng.choice([1, 2, 3, rng.randint(1, S), rng.randint(1, S)])
+    nr, nc = rng.choice([1, 2, rng.randint(1, S), rng.randint(3, S), rng.randint(3, S)]), \
+        rng.choice([1, 2, rng.randint(1, S), rng.randint(3, S), rng.randint(3, S)])
     if dyadic:
         csz_a = rng.choice([1.0, 0.5, 0.25, 2.0, 0.125, 4.0])
         xll_a = rng.choice([0.0, 10.0, -7.5, 3.25, 100.0, -64.0])
@@ -314,29 +314,46 @@ def gen_intersect(rng, S, G):
     else:
         ratio = rng.choice([1, 2, 3, 4, rng.uniform(1, 4), 2.0, 3.0])
     csz = csz_a * ratio
-    gr, gc = rng.choice([1, 2, rng.randint(1, G)]), rng.choice([1, 2, rng.randint(1, G)])
+    gr, gc = rng.choice([1, 2, rng.randint(1, G), rng.randint(2, G)]), rng.choice([1, 2, rng.randint(1, G), rng.randint(2, G)])
+    cells = gen_cells(rng, n)
     mode = rng.random()
     wx, wy = nc * csz_a, nr * csz_a                 # extent of the fine grid
-    if mode < 0.45:       # offsets that are small multiples of the fine cell size (centres on coarse edges)
+    if mode < 0.4 and cells:
+        # anchored: the centre of one area cell sits at a chosen position inside a chosen coarse cell
+        # (u, v = 0: exactly on the left / lower edge of that coarse cell)
+        c = rng.choice(cells)
+        cx, cy = (c % nc + 0.5) * csz_a, (nr - 1 - c // nc + 0.5) * csz_a
+        k, r = rng.randrange(gc), rng.randrange(gr)
+        frac = [0.0, 0.0, 0.5, 0.25, 0.75] if dyadic else [0.0, 0.5, rng.random(), 1e-7, 1 - 1e-7]
+        ox = cx - csz * (k + rng.choice(frac))
+        oy = cy - csz * (gr - 1 - r + rng.choice(frac))
+    elif mode < 0.55:     # offsets that are small multiples of the fine cell size (centres on coarse edges)
         ox = rng.choice(DYADIC) * csz_a if dyadic else rng.choice(DYADIC) * csz_a + rng.choice([0, 1e-7 * csz_a])
         oy = rng.choice(DYADIC) * csz_a
-    elif mode < 0.6:      # coarse grid covering the whole fine grid
+        gc, gr = max(gc, rng.randint(1, G)), max(gr, rng.randint(1, G))
+    elif mode < 0.7:      # coarse grid covering the whole fine grid
         ox, oy = -csz * rng.choice([0, 1, 0.5]), -csz * rng.choice([0, 1, 0.5])
         gc = max(gc, int(math.ceil((wx - ox) / csz)) + rng.choice([0, 1]))
         gr = max(gr, int(math.ceil((wy - oy) / csz)) + rng.choice([0, 1]))
-    elif mode < 0.8:      # partial overlap on a chosen side (left/bottom = negative offsets of the fine grid)
-        ox = rng.choice([-1, 1]) * rng.choice([0.5, 1, 1.5, 2]) * csz_a + rng.choice([0, wx / 2, -gc * csz / 2])
-        oy = rng.choice([-1, 1]) * rng.choice([0.5, 1, 1.5, 2]) * csz_a + rng.choice([0, wy / 2, -gr * csz / 2])
-    elif mode < 0.9:      # no overlap
+    elif mode < 0.85:     # partial overlap: one side of the coarse extent cuts through the fine grid
+        if rng.random() < 0.6:
+            cells = rng.sample(range(n), n)
+        cutx = rng.choice([0.5, 1, 1.5, 2, nc / 2, nc - 1, nc - 0.5]) * csz_a
+        cuty = rng.choice([0.5, 1, 1.5, 2, nr / 2, nr - 1, nr - 0.5]) * csz_a
+        ox = cutx - gc * csz if rng.random() < 0.5 else cutx        # right edge / left edge of the grid at cutx
+        oy = cuty - gr * csz if rng.random() < 0.5 else cuty
+        if rng.random() < 0.3:
+            ox = -csz * rng.choice([0, 0.5])
+            gc = max(gc, int(math.ceil((wx - ox) / csz)))
+    elif mode < 0.92:     # no overlap
         side = rng.choice(["l", "r", "b", "t"])
         ox = -gc * csz - rng.choice([0, 0.5, 3]) * csz_a if side == "l" else wx + rng.choice([0, 0.5, 3]) * csz_a if side == "r" else 0.0
         oy = -gr * csz - rng.choice([0, 0.5, 3]) * csz_a if side == "b" else wy + rng.choice([0, 0.5, 3]) * csz_a if side == "t" else 0.0
     else:                 # arbitrary
-        ox, oy = rng.uniform(-1, 1) * (wx + gc * csz), rng.uniform(-1, 1) * (wy + gr * csz)
+        ox, oy = rng.uniform(-1, 1) * (wx + gc * csz) / 2, rng.uniform(-1, 1) * (wy + gr * csz) / 2
         if dyadic:
             ox, oy = round(ox * 8) / 8, round(oy * 8) / 8
     xll, yll = xll_a + ox, yll_a + oy
-    cells = gen_cells(rng, n)
     case = {"kind": "intersect", "nr_a": nr, "nc_a": nc, "xll_a": xll_a, "yll_a": yll_a, "csz_a": csz_a,
             "cells": cells, "nrows": gr, "ncols": gc, "xll": xll, "yll": yll, "csz": csz,
             "filled": rng.random() < 0.4, "dyadic": dyadic, "mode": round(mode, 2)}
@@ -529,7 +546,13 @@ def run(ctx):
 
     DO = {"intersect": do_intersect, "kernel": do_kernel, "voronoi": do_voronoi}
 
-    # ---- corpus first (earlier failures, DESIGN section 6 row 11)
+    # ---- a replay file given on the command line, then the corpus (earlier failures, DESIGN section 6 row 11)
+    rp = getattr(ctx, "replay", None)
+    if rp:
+        case = rp.get("replay", rp)
+        case = case.get("first_mismatch", case)
+        if isinstance(case, dict) and case.get("kind") in DO:
+            DO[case["kind"]]({k: v for k, v in case.items() if k not in ("impl", "call")})
     for case in cm.load_corpus(PID):
         DO[case["kind"]](case)
 
